@@ -321,6 +321,7 @@ structure BState where
   pc : BPc
   buf : List Nat             -- macro[0 .. ptr)
   nameTest : Option Nat        -- name_test - macro
+  inWord : Bool                -- in_word: the previous character was a letter, a digit or '_'
   deriving Repr
 
 inductive BEnd where
@@ -358,7 +359,8 @@ def checkEndm (buf : List Nat) : Option Nat :=
   let p0 : Int := (buf.length : Int) - 1
   let p1 := back1 (buf.length + 1) p0
   let p2 := back2 (buf.length + 1) p1
-  let k := (p2 + 1).toNat
+  -- step over the white space in front of the word, if there is any
+  let k := if p2 < 0 ∨ byteAt p2.toNat = 10 ∨ byteAt p2.toNat = 32 ∨ byteAt p2.toNat = 9 then (p2 + 1).toNat else p2.toNat
   let word := (buf.drop k).take 5
   if word.map lowerByte = [46, 101, 110, 100, 109] then some k else none
 
@@ -395,10 +397,16 @@ def bodyTail (isDefine : Bool) (s : BState) (ch : Ch) : Step BState BRes :=
 def stripSpaces : List Nat → List Nat
   | l => (l.reverse.dropWhile (· = 32)).reverse
 
-/-- the parameter-name bookkeeping at the top of a pass; `none` = a write outside macro[] -/
+def isWordChar (ch : Ch) : Bool := isLetter ch || isDig ch || decide (ch = 95)
+
+/-- the parameter-name bookkeeping at the top of a pass; `none` = a write outside macro[].
+    A name starts at the start of a word only (`in_word`). -/
 def nameUpdate (params : List Nat) (s : BState) (ch : Ch) : Option BState :=
   match s.nameTest with
-  | none => if isLetter ch then some { s with nameTest := some s.buf.length } else some s
+  | none =>
+    if (isLetter ch ∨ ch = 95) ∧ ¬ s.inWord then
+      some { s with nameTest := some s.buf.length, inWord := isWordChar ch }
+    else some { s with inWord := isWordChar ch }
   | some nt =>
     if ¬ (isLetter ch ∨ isDig ch ∨ ch = 95) then
       -- `macro[ptr] = 0; index = get_param_index(params, name_test);`
@@ -407,11 +415,11 @@ def nameUpdate (params : List Nat) (s : BState) (ch : Ch) : Option BState :=
           -- `ptr = name_test - macro; macro[ptr++] = 1; macro[ptr++] = index;`
           if nt + 1 < mpMacroLen then
             some { s with buf := s.buf.take nt ++ [1, paramIndexGo params (s.buf.drop nt) 0 % 256],
-                          nameTest := none }
+                          nameTest := none, inWord := isWordChar ch }
           else none
-        else some { s with nameTest := none }
+        else some { s with nameTest := none, inWord := isWordChar ch }
       else none
-    else some s
+    else some { s with inWord := isWordChar ch }
 
 /-- a comment starts (the rest of the line is skipped), or the pass goes on -/
 def bodyAfterName (isDefine : Bool) (s : BState) (ch : Ch) : Step BState BRes :=
@@ -452,7 +460,7 @@ def bodyStep (isDefine : Bool) (params : List Nat) (s : BState) : Step BState BR
 
 /-- the body loop of macros_parse -/
 def parseBody (isDefine : Bool) (params : List Nat) (fuel : Nat) (r : RState) : Out BRes :=
-  run (bodyStep isDefine params) fuel { r := r, pc := .body, buf := [], nameTest := none }
+  run (bodyStep isDefine params) fuel { r := r, pc := .body, buf := [], nameTest := none, inWord := false }
 
 /-- after the loop: `macro[ptr++] = ' '; macro[ptr++] = 0;` with the loop's `ptr`; `none` = overflow.
     (After `.endm` the text was cut in front of it, the blank lands behind the cut.) -/
